@@ -322,7 +322,12 @@ def check_case(w, fname, roottok, sel, rec, key, patsets, policy, stats):
                           detail='filter= result differs from the filtered unfiltered result'))
     if not has_pat:
         return fails
-    ci_exact = (policy == 'EDIF' and key == 'EDIF.identifier')
+    def ci_exact(e):
+        # identifiers compare case-insensitively for an element under the EDIF policy (its '.NS' entry)
+        try:
+            return key == 'EDIF.identifier' and '.NS' in e and e['.NS'] == 'EDIF'
+        except TypeError:
+            return False
     for pats, is_case, is_re, shape in patsets:
         kk = key if has_key else None
         st, R = call(fname, root, pats, kk, is_case, is_re, sel, rec)
@@ -333,7 +338,7 @@ def check_case(w, fname, roottok, sel, rec, key, patsets, policy, stats):
             fails.append(dict(case, clause='accepts', detail=st))
             continue
         def selects(e, quant):
-            return quant(any(match_spec(v, p, is_case, is_re, ci_exact) for p in pats) for v in values_of(fname, e, key, root))
+            return quant(any(match_spec(v, p, is_case, is_re, ci_exact(e)) for p in pats) for v in values_of(fname, e, key, root))
         exp = [e for e in U if selects(e, all)]          # must be returned
         may = set(e for e in U if selects(e, any))       # may be returned (differs only for ambiguous names)
         stats['expected_nonempty' if exp else 'expected_empty'] += 1
